@@ -31,6 +31,12 @@ ASSUMPTIONS = [
 
 
 MUTANTS = [
+    ("compress also rescales the off-diagonal CD terms",
+     "AegeanTools/fits_tools.py",
+     "        header['CD1_1'] *= factor\n",
+     "        header['CD1_1'] *= factor\n"
+     "        if 'CD2_1' in header:\n            header['CD2_1'] *= factor\n",
+     "C15-R2"),
     ("shared loader opens files unscaled", "AegeanTools/fits_tools.py",
      "        hdulist = fits.open(filename, ignore_missing_end=True)",
      "        hdulist = fits.open(filename, ignore_missing_end=True,\n"
@@ -337,6 +343,30 @@ def run(ctx):
                       ok, "%s: compress %s, expand %s" %
                       (key, [norm(x) for x in a], [norm(x) for x in b]),
                       node=(b or a or [exp.node])[0])
+    # every key that one side rescales by the factor is rescaled back by
+    # the other side (not only the four diagonal keys above)
+    from ..core import as_update as _asu
+
+    def scaled(stores):
+        out = {}
+        for key, sts in stores.items():
+            for st in sts:
+                u = _asu(st)
+                if u is not None and u[1] in (ast.Mult, ast.Div) and \
+                        u[2] == "factor":
+                    out.setdefault(key, []).append(u[1])
+        return out
+    sc, se = scaled(cs), scaled(es)
+    for key in sorted(set(sc) | set(se)):
+        a_, b_ = sc.get(key, []), se.get(key, [])
+        ok = len(a_) == 1 and len(b_) == 1 and {a_[0], b_[0]} == {ast.Mult,
+                                                                  ast.Div}
+        ctx.check("C15-R2", exp, "%s rescaled by compress and back by "
+                  "expand" % key, ok,
+                  "%s is rescaled by the factor %d time(s) in compress and "
+                  "%d time(s) in expand: compress followed by expand does "
+                  "not restore this WCS keyword" % (key, len(a_), len(b_)),
+                  node=(cs.get(key) or es.get(key))[0])
     # ---------------------------------------------------------------- R3
     ctx.rule("C15-R3", "the decimation stride, BN_CFAC and expand's node "
              "spacing are one value; node k at k*factor; grid extents rows <- "
